@@ -154,7 +154,7 @@ def rule_i3(repo, res, guard_info):
     # compared in canonical form (thin helpers inlined, single-assignment locals and attributes substituted),
     # so that a named temporary or an inlined firstpos() reads the same
     from . import canon, inline
-    cinit = canon.canon_method(repo, "LexerError", "__init__")
+    cinit = canon.canon_method(repo, "LexerError", "__init__", public=True)
     assigns = {}
     for n in cinit.body:
         if isinstance(n, ast.Assign) and len(n.targets) == 1:
@@ -162,7 +162,7 @@ def rule_i3(repo, res, guard_info):
 
     def expected(src):
         e = ast.parse(src, mode="eval").body
-        return inline.inline_expr(repo, None, "exceptions", e)
+        return inline.inline_expr(repo, None, "exceptions", e, public=True)
     vpos, vline, vcol = assigns.get("self.pos"), assigns.get("self.lineno"), assigns.get("self.colno")
     P = f"firstpos({lexeme}, {pos})"
     ok_pos = vpos is not None and norm(vpos) == norm(expected(P))
